@@ -866,8 +866,123 @@ W14 = W14 + [_world("W14c-schema-types-differing-only-in-case", _W14C_SDL, _W14C
                     {"plugins": ["ariadne_codegen.contrib.client_forward_refs.ClientForwardRefsPlugin"]})]
 
 
+# non-ASCII text wherever GraphQL allows it: descriptions, comments, string defaults, string literals in operations
+_W16_SDL = '''
+"""Schéma de démonstration — naïve café ☕"""
+type Query {
+  "recherche par nom, p. ex. « Zoë »"
+  search(term: String = "café", filter: SearchFilter): [Entry!]!
+  entry(id: ID!): Entry
+}
+
+"""Une entrée"""
+type Entry {
+  # commentaire: ça ne compte pas — 日本語
+  id: ID!
+  "titre (Ünïcödé)"
+  title: String!
+  note: String
+  mood: Mood
+}
+
+enum Mood {
+  "heureux 😀"
+  HAPPY
+  SAD
+}
+
+input SearchFilter {
+  contains: String = "crème brûlée"
+  lang: String! = "日本語"
+  tags: [String!] = ["ñ", "ß"]
+  mood: Mood = HAPPY
+}
+'''
+_W16_Q = '''
+query Search($term: String = "smörgåsbord", $filter: SearchFilter) {
+  # requête — naïve
+  search(term: $term, filter: $filter) {
+    id
+    title
+    mood
+  }
+}
+
+query Literal {
+  search(term: "Ωmega ünïcode 😀") {
+    id
+    note
+  }
+}
+
+query Entry($id: ID!) {
+  entry(id: $id) {
+    ...EntryBits
+  }
+}
+
+fragment EntryBits on Entry {
+  id
+  title
+}
+'''
+# non-ASCII text only where it does not reach the generated files (comments, descriptions): such a project must generate the
+# same files under every locale / text-encoding environment of the generating process
+_W16D_SDL = '''
+"""Schéma de démonstration — naïve café ☕"""
+type Query {
+  "recherche par nom, p. ex. « Zoë »"
+  search(term: String = "cafe", filter: SearchFilter): [Entry!]!
+  entry(id: ID!): Entry
+}
+
+"""Une entrée"""
+type Entry {
+  # commentaire: ça ne compte pas — 日本語
+  id: ID!
+  "titre (Ünïcödé)"
+  title: String!
+  mood: Mood
+}
+
+enum Mood {
+  "heureux 😀"
+  HAPPY
+  SAD
+}
+
+input SearchFilter {
+  # crème brûlée
+  contains: String = "creme"
+  mood: Mood = HAPPY
+}
+'''
+_W16D_Q = '''
+query Search($term: String = "plain", $filter: SearchFilter) {
+  # requête — naïve ☕
+  search(term: $term, filter: $filter) {
+    id
+    title
+    mood
+  }
+}
+
+query Entry($id: ID!) {
+  entry(id: $id) {
+    # ünï
+    id
+    title
+  }
+}
+'''
+W16 = [dict(_world("W16d-non-ascii-only-in-comments-and-descriptions", _W16D_SDL, _W16D_Q), locale_safe=True),
+       _world("W16-non-ascii-text", _W16_SDL, _W16_Q),
+       _world("W16b-non-ascii-graphqlschema-py", _W16_SDL, "", {"target_file_path": "schema_types.py"}, strategy="graphqlschema"),
+       _world("W16c-non-ascii-graphqlschema-sdl", _W16_SDL, "", {"target_file_path": "schema_out.graphql"}, strategy="graphqlschema")]
+
+
 def all_worlds() -> List[dict]:
-    return [W1, W2, W2b, W3, W4, W5, W7, W8, W8s, W9, W9k, W15] + W10 + W11 + W12 + W13 + W14
+    return [W1, W2, W2b, W3, W4, W5, W7, W8, W8s, W9, W9k, W15] + W10 + W11 + W12 + W13 + W14 + W16
 
 
 def by_id(wid: str) -> dict:
